@@ -112,12 +112,12 @@ func RunBig(bc BigCase, stt *Stats) *Diff {
 		return &Diff{Broken: true, Detail: "reference encoder disagrees with the model's Size"}
 	}
 	stt.Values += int64(len(vals))
-	var got []byte
+	var got, raw []byte
 	var err error
 	if bc.Bytes && !bc.Pre {
-		got, _, err = realEncodeStringBytes(content, bc.Enc, bc.Salt, stt)
+		got, _, raw, err = realEncodeStringBytes(content, bc.Enc, bc.Salt, stt)
 	} else {
-		got, _, err = RealEncode(vals, bc.Enc, bc.Salt, stt)
+		got, _, raw, err = realEncodeRaw(vals, bc.Enc, bc.Salt, stt)
 	}
 	cls := "len" + lenClass(bc.Len)
 	if err != nil {
@@ -130,6 +130,13 @@ func RunBig(bc BigCase, stt *Stats) *Diff {
 		}
 		return &Diff{Invariant: "Layout", Type: "string", Mode: mode(bc.Enc), Class: "bytes:" + cls,
 			Detail: fmt.Sprintf("PutString of %d content bytes wrote %d bytes, the format prescribes %d; first difference at byte %d", bc.Len, len(got), len(want), off)}
+	}
+	// the real sender's own frames, read back by the real Get* calls
+	if len(bc.Cuts) == 0 {
+		if i, msg := RealDecode(raw, vals, bc.Enc, bc.Salt, 0, stt); i >= 0 {
+			return &Diff{Invariant: "RoundTrip", Type: vals[i].T, Mode: mode(bc.Enc), Class: "real-frames:" + cls,
+				Detail: fmt.Sprintf("string of %d content bytes written by the real Put* and read from its own frames: value %d: %s", bc.Len, i, msg)}
+		}
 	}
 	stt.Cuts += int64(len(bc.Cuts))
 	if i, msg := RealDecode(Reframe(want, bc.Cuts, bc.Enc, bc.Salt), vals, bc.Enc, bc.Salt, 0, stt); i >= 0 {
@@ -163,6 +170,24 @@ func BigCases(thorough bool, salt int) []BigCase {
 		lens = append(lens, 1048534, 1048566, 1048567, 1048575, 1048576, 1048577, 1100003, 2097200)
 	}
 	var out []BigCase
+	if !thorough {
+		// multi-frame strings (> 1 MiB) in the quick tier: layout byte for byte, round trip
+		// from the real frames and from reference re-cuts, alone and between other values
+		for _, n := range []int{1048543, 1048576, 1048609, 2200003} {
+			for _, enc := range []bool{false, true} {
+				p := 0
+				if enc {
+					p = 8
+				}
+				out = append(out,
+					BigCase{Len: n, Enc: enc, Salt: salt},
+					BigCase{Len: n, Enc: enc, Salt: salt, Bytes: true},
+					BigCase{Len: n, Enc: enc, Salt: salt, Pre: true},
+					BigCase{Len: n, Enc: enc, Salt: salt, Pre: true, Cuts: []int{p + 3, p + 8 + n/2}},
+					BigCase{Len: n, Enc: enc, Salt: salt, Cuts: []int{p + n - 1}})
+			}
+		}
+	}
 	for _, n := range lens {
 		for _, enc := range []bool{false, true} {
 			total := n + 1
